@@ -51,6 +51,15 @@ class Prop:
         """signature used to match known findings"""
         return clause
 
+    def model_script(self, case, impl):
+        """script given to the model; engines whose model consumes the answers of the
+        implementation's environment (recorded in the implementation trace) override this"""
+        return case.script
+
+    def canon(self, lines, side):
+        """canonical form of a trace before comparison (side = 'impl' or 'model')"""
+        return lines
+
     def search(self, rng, reason):
         """extra, targeted cases generated when a proof or the correspondence broke"""
         return []
@@ -64,7 +73,8 @@ def run_cases(prop, cases, tag):
     work = os.path.join(WORK, prop.id)
     scripts = [c.script for c in cases]
     impl = run_impl_shards(scripts, work, tag)
-    model = run_model_shards(scripts, work, tag)
+    mscripts = [prop.model_script(c, impl.get(c.sid, [])) for c in cases]
+    model = run_model_shards(mscripts, work, tag)
     return impl, model
 
 
@@ -146,7 +156,7 @@ def check_property(prop, tier, seed, replay=None):
                     nontrivial.add(trace_hash(it + [c.script.split("\n", 1)[0].split(" ", 2)[2]]))
                 if len(samples) < 3 and prop.nontrivial(c, it):
                     samples.append({"script": c.script.splitlines()[:12], "impl_trace": it[:12], "model_trace": mt[:12]})
-                if it != mt and not c.meta.get("impl_only"):
+                if prop.canon(it, "impl") != prop.canon(mt, "model") and not c.meta.get("impl_only"):
                     mismatches.append((c, it, mt))
                 for clause, desc in prop.oracle(c, it):
                     violations.append((clause, desc, c, it, mt))
